@@ -77,6 +77,14 @@ BENIGN = [
     ('b-termination-flipped-comparison', [('src/voronoi/convex_cell.rs', 'if cell.safety_radius < dist {', 'if dist > cell.safety_radius {')]),
     ('b-centroid-quarter-as-division', [('src/voronoi/integrals.rs', '            0.25 / self.volume', '            1. / (4. * self.volume)')]),
     ('b-helper-extracted-normalisation', [('src/voronoi.rs', '        // Normalize the unused components of the simulation volume, so that the lower\n        // dimensional volumes will be correct.\n        if let Dimensionality::OneD = dimensionality {\n            anchor.y = -0.5;\n            width.y = 1.;\n        }\n\n        if let Dimensionality::OneD | Dimensionality::TwoD = dimensionality {\n            anchor.z = -0.5;\n            width.z = 1.;\n        }\n\n        // build cells', '        fn unit_slab(anchor: &mut DVec3, width: &mut DVec3, dimensionality: Dimensionality) {\n            if let Dimensionality::OneD = dimensionality {\n                anchor.y = -0.5;\n                width.y = 1.;\n            }\n            if let Dimensionality::OneD | Dimensionality::TwoD = dimensionality {\n                anchor.z = -0.5;\n                width.z = 1.;\n            }\n        }\n        unit_slab(&mut anchor, &mut width, dimensionality);\n\n        // build cells')]),
+    ('b-match-for-if-let-shift', [('src/voronoi/convex_cell.rs', '            let ngb_loc;\n            if let Some(shift) = shift {\n                ngb_loc = generator.loc() + shift;\n            } else {\n                ngb_loc = generator.loc();\n            }', '            let ngb_loc = match shift {\n                Some(s) => generator.loc() + s,\n                None => generator.loc(),\n            };')]),
+    ('b-bisector-helper-extracted', [('src/voronoi/convex_cell.rs', '            let n = dx / dist;\n            let p = 0.5 * (cell.loc + ngb_loc);', '            fn bisector(l: DVec3, r: DVec3, d: DVec3, len: f64) -> (DVec3, DVec3) {\n                (d / len, 0.5 * (l + r))\n            }\n            let (n, p) = bisector(cell.loc, ngb_loc, dx, dist);')]),
+    ('b-face-rule-disjuncts-swapped', [('src/voronoi/voronoi_cell.rs', '*right_idx > idx || mask.map_or(false, |mask| !mask[*right_idx])', 'mask.map_or(false, |mask| !mask[*right_idx]) || *right_idx > idx')]),
+    ('b-finalize-index-loop', [('src/voronoi.rs', '        for (i, face) in self.faces.iter().enumerate() {\n            cell_face_connections[face.left()].push(i);', '        for i in 0..self.faces.len() {\n            let face = &self.faces[i];\n            cell_face_connections[face.left()].push(i);')]),
+    ('b-safety-radius-fold-max', [('src/voronoi/convex_cell.rs', '            .max_by(|a, b| a.partial_cmp(b).expect("NaN distance encountered!"))\n            .expect("Vertices cannot be empty!");', '            .fold(f64::NEG_INFINITY, f64::max);')]),
+    ('b-clip-sign-via-comparison', [('src/voronoi/half_space.rs', '            clip.signum()', '            if clip > 0. { 1. } else { -1. }')]),
+    ('b-volume-integral-local-var', [('src/voronoi/integrals.rs', '        self.volume += signed_volume_tet(v0, v1, v2, gen);\n    }', '        let dv = signed_volume_tet(v0, v1, v2, gen);\n        self.volume = self.volume + dv;\n    }')]),
+    ('b-neighbour-ids-match', [('src/voronoi/voronoi_cell.rs', '            if face.is_periodic() || face.is_boundary() {\n                return None;\n            }', '            if face.shift().is_some() || face.right().is_none() {\n                return None;\n            }')]),
 ]
 
 
